@@ -139,7 +139,11 @@ def parse_reports(text):
     return reps
 
 
-def repo_frame(frames, repo="/repo/"):
+REPO_PREFIX = os.environ.get("VERIF_REPO", "/repo").rstrip("/") + "/"
+
+
+def repo_frame(frames, repo=None):
+    repo = repo or REPO_PREFIX
     """first frame that lies in the repository (not libstdc++ / libtsan)"""
     for fn, fl, ln in frames:
         if fl.startswith(repo):
